@@ -87,8 +87,9 @@ struct FuncType {
     ret_len: u64,
     #[br(count = ret_len)]
     rets: Vec<IndexType>,
-    #[br(assert(ann_len <= 1u8, "function annotation length should be at most 1"))]
-    ann_len: u8,
+    #[br(parse_with = read_leb)]
+    #[br(assert(ann_len <= 1u64, "function annotation length should be at most 1"))]
+    ann_len: u64,
     #[br(count = ann_len)]
     ann: Vec<Mode>,
 }
